@@ -401,6 +401,8 @@ fn rewrite_keeping_facts(rng: &mut Rng, st: &mut GenState, d: &Doc, what: usize)
             n.doc = Some(format!("doc v{}", n.serial));
             n.banner = Some(format!("banner v{}", n.serial));
             n.header_one_line = rng.pct(50);
+            n.dot_trivia = if rng.pct(50) { rng.range(1, 4) as u8 } else { 0 };
+            n.tabs = rng.pct(30);
             (n, "rewrite_docs_layout")
         }
         _ => {
@@ -533,6 +535,7 @@ fn generate_tiny(rng: &mut Rng) -> (HistScenario, String) {
         tabs: false,
         col_pad: 0,
         line_pad: 0,
+        dot_trivia: 0,
     };
     let uses = |ty: &str| {
         vec![gen::Member::Method {
